@@ -201,6 +201,12 @@ func cmdDrive(args []string) {
 
 	// ---- confirm what the workers found in a fresh process -------------------
 	var reported []FoundViolation
+	sort.SliceStable(found, func(a, c int) bool { return found[a].Seed < found[c].Seed })
+	moreFound := 0
+	if len(found) > 12 {
+		moreFound = len(found) - 12
+		found = found[:12]
+	}
 	for _, f := range found {
 		out, code := runCmd(nil, 120*time.Second, *bin, "replay", "-quiet", f.Replay)
 		if code != 1 || !strings.Contains(out, "VIOLATION property="+f.V.Prop) {
@@ -212,6 +218,7 @@ func cmdDrive(args []string) {
 	sort.Slice(raceSeeds, func(a, c int) bool { return raceSeeds[a] < raceSeeds[c] })
 	raceReported := 0
 	raceIgnored := 0
+	var raceUnconfirmed []int64
 	for _, sd := range raceSeeds {
 		if raceReported >= 2 {
 			break
@@ -219,14 +226,20 @@ func cmdDrive(args []string) {
 		plan := generate(*prop, sd, *tier)
 		test := func(q *Plan) (bool, string) { return raceReplays(q, *raceBin, *work, b.raceFilter) }
 		okRace, report := test(plan)
+		for try := 0; !okRace && try < 2 && b.raceFilter == ""; try++ {
+			okRace, report = test(plan)
+		}
 		if !okRace {
 			if b.raceFilter != "" {
 				raceIgnored++
 				continue // a race that does not involve this property's mechanism: C12's business
 			}
-			trouble("race reported in seed %d did not reproduce in a fresh process", sd)
+			// The worker saw a report in this run but three fresh
+			// executions of the same plan did not: not a verdict.
+			raceUnconfirmed = append(raceUnconfirmed, sd)
+			continue
 		}
-		min, _ := minimize(plan, func(q *Plan) bool { r, _ := test(q); return r }, 160)
+		min, _ := minimizeUntil(plan, func(q *Plan) bool { r, _ := test(q); return r }, 100, time.Now().Add(60*time.Second))
 		_, report2 := test(min)
 		if report2 != "" {
 			report = report2
@@ -242,6 +255,13 @@ func cmdDrive(args []string) {
 		raceReported++
 	}
 
+	if len(raceUnconfirmed) > 0 {
+		fmt.Printf("UNCONFIRMED-RACE-REPORT seeds=%v: a race-build worker saw a race report during these runs, but three fresh executions of the same plan did not report it; not counted as a violation\n", raceUnconfirmed)
+		if len(reported) == 0 {
+			// nothing else to report: a finding that does not replay is harness trouble, never a verdict
+			trouble("race report(s) in seeds %v did not reproduce in a fresh process", raceUnconfirmed)
+		}
+	}
 	// ---- verdict -------------------------------------------------------------------
 	exit := 0
 	nViol := 0
@@ -271,6 +291,9 @@ func cmdDrive(args []string) {
 		}
 	}
 
+	if moreFound > 0 {
+		fmt.Printf("(%d further violations were found by the workers and are not listed)\n", moreFound)
+	}
 	// ---- evidence ------------------------------------------------------------------
 	wall := time.Since(start).Seconds()
 	ev := map[string]interface{}{
